@@ -136,3 +136,46 @@ class NodeFrames(Contract):
 
 
 ALL = [NodeFrames]
+
+
+class NoClosureOverLoopVariable(Contract):
+    """Syntactic obligation on streamz/sources.py and streamz/core.py: a closure created inside a `for` loop (lambda or nested def)
+    must not refer to the loop variable as a free variable -- Python binds it late, so every closure created by the loop sees the
+    value of the LAST iteration when it finally runs.  For the Kafka source this is the completion callback of a batch
+    (`RefCounter(cb=lambda: commit(part))` inside `for part in out:` would commit some other batch's offset).  Passing the value as an
+    argument (`loop.add_callback(checkpoint_emit, part)`), as a default (`lambda p=part: ...`) or through functools.partial is fine."""
+    file = 'streamz/sources.py'
+    files = ['streamz/sources.py', CORE]
+    qual = 'FromKafkaBatched.poll_kafka'
+    name = 'no closure over a loop variable'
+    props = ['C09']
+
+    def verify(self, index, props=None, want_models=True):
+        t0 = time.time()
+        bad = []
+        n_loops = 0
+        for rel in self.files:
+            src, tree = index.files[rel]
+            for loop in [n for n in ast.walk(tree) if isinstance(n, (ast.For, ast.AsyncFor))]:
+                n_loops += 1
+                targets = set(n.id for n in ast.walk(loop.target) if isinstance(n, ast.Name))
+                for node in loop.body:
+                    for c in ast.walk(node):
+                        if isinstance(c, (ast.Lambda, ast.FunctionDef, ast.AsyncFunctionDef)):
+                            a = c.args
+                            params = set(x.arg for x in a.args + a.kwonlyargs + getattr(a, 'posonlyargs', [])) | \
+                                set(x.arg for x in (a.vararg, a.kwarg) if x is not None)
+                            body = c.body if isinstance(c.body, list) else [c.body]
+                            assigned = set(n.id for b in body for n in ast.walk(b) if isinstance(n, ast.Name) and isinstance(n.ctx, ast.Store))
+                            free = set(n.id for b in body for n in ast.walk(b) if isinstance(n, ast.Name) and isinstance(n.ctx, ast.Load))
+                            hit = (free & targets) - params - assigned
+                            if hit:
+                                bad.append('%s line %d: closure refers to the loop variable %s' % (rel, c.lineno, ', '.join(sorted(hit))))
+        res = [Result(self.name + '/C09.completion_callbacks_bind_their_batch_when_they_are_created', self.props,
+                      'proved' if not bad and n_loops > 10 else 'failed', 'syntactic', time.time() - t0, path='ast', contract=self,
+                      detail='; '.join(bad) if bad else ('' if n_loops > 10 else 'only %d loops found' % n_loops))]
+        self.outcomes = []
+        return res, {'paths': 0, 'seconds': 0, 'branch_checks': 0, 'outcomes': [], 'dropped': [], 'cover': []}
+
+
+ALL += [NoClosureOverLoopVariable]
